@@ -530,9 +530,14 @@ func (v *Visitor) Visit(s *df.AnalyzerState, source df.NodeWithTrace) {
 				}
 				if graphNode.Index() < len(bvs) {
 					bv := bvs[graphNode.Index()]
+					// the call stack may be empty here (the closure was entered without a recorded call site)
+					var parentTrace *df.NodeTree[*df.CallNode]
+					if cur.Trace != nil {
+						parentTrace = cur.Trace.Parent
+					}
 					nextNodeWithTrace := df.NodeWithTrace{
 						Node:         bv,
-						Trace:        cur.Trace.Parent,
+						Trace:        parentTrace,
 						ClosureTrace: cur.ClosureTrace.Parent,
 					}
 					que = v.addNext(s, que, cur, nil, nextNodeWithTrace, cur.Status, df.EdgeInfo{})
